@@ -564,25 +564,82 @@ impl<const N: usize> RegisterAllocator<N> {
     }
     fn op_reg(&mut self, op: SsaOp) {
         match op {
-            SsaOp::NegReg(out, arg) => self.op_reg_fn(out, arg, |o: u8, a: u8| -> (r: RegOp) ensures r == RegOp::NegReg(o, a) { RegOp::NegReg(o, a) }),
-            SsaOp::AbsReg(out, arg) => self.op_reg_fn(out, arg, |o: u8, a: u8| -> (r: RegOp) ensures r == RegOp::AbsReg(o, a) { RegOp::AbsReg(o, a) }),
-            SsaOp::RecipReg(out, arg) => self.op_reg_fn(out, arg, |o: u8, a: u8| -> (r: RegOp) ensures r == RegOp::RecipReg(o, a) { RegOp::RecipReg(o, a) }),
-            SsaOp::SqrtReg(out, arg) => self.op_reg_fn(out, arg, |o: u8, a: u8| -> (r: RegOp) ensures r == RegOp::SqrtReg(o, a) { RegOp::SqrtReg(o, a) }),
-            SsaOp::SquareReg(out, arg) => self.op_reg_fn(out, arg, |o: u8, a: u8| -> (r: RegOp) ensures r == RegOp::SquareReg(o, a) { RegOp::SquareReg(o, a) }),
-            SsaOp::FloorReg(out, arg) => self.op_reg_fn(out, arg, |o: u8, a: u8| -> (r: RegOp) ensures r == RegOp::FloorReg(o, a) { RegOp::FloorReg(o, a) }),
-            SsaOp::CeilReg(out, arg) => self.op_reg_fn(out, arg, |o: u8, a: u8| -> (r: RegOp) ensures r == RegOp::CeilReg(o, a) { RegOp::CeilReg(o, a) }),
-            SsaOp::RoundReg(out, arg) => self.op_reg_fn(out, arg, |o: u8, a: u8| -> (r: RegOp) ensures r == RegOp::RoundReg(o, a) { RegOp::RoundReg(o, a) }),
-            SsaOp::SinReg(out, arg) => self.op_reg_fn(out, arg, |o: u8, a: u8| -> (r: RegOp) ensures r == RegOp::SinReg(o, a) { RegOp::SinReg(o, a) }),
-            SsaOp::CosReg(out, arg) => self.op_reg_fn(out, arg, |o: u8, a: u8| -> (r: RegOp) ensures r == RegOp::CosReg(o, a) { RegOp::CosReg(o, a) }),
-            SsaOp::TanReg(out, arg) => self.op_reg_fn(out, arg, |o: u8, a: u8| -> (r: RegOp) ensures r == RegOp::TanReg(o, a) { RegOp::TanReg(o, a) }),
-            SsaOp::AsinReg(out, arg) => self.op_reg_fn(out, arg, |o: u8, a: u8| -> (r: RegOp) ensures r == RegOp::AsinReg(o, a) { RegOp::AsinReg(o, a) }),
-            SsaOp::AcosReg(out, arg) => self.op_reg_fn(out, arg, |o: u8, a: u8| -> (r: RegOp) ensures r == RegOp::AcosReg(o, a) { RegOp::AcosReg(o, a) }),
-            SsaOp::AtanReg(out, arg) => self.op_reg_fn(out, arg, |o: u8, a: u8| -> (r: RegOp) ensures r == RegOp::AtanReg(o, a) { RegOp::AtanReg(o, a) }),
-            SsaOp::ExpReg(out, arg) => self.op_reg_fn(out, arg, |o: u8, a: u8| -> (r: RegOp) ensures r == RegOp::ExpReg(o, a) { RegOp::ExpReg(o, a) }),
-            SsaOp::LnReg(out, arg) => self.op_reg_fn(out, arg, |o: u8, a: u8| -> (r: RegOp) ensures r == RegOp::LnReg(o, a) { RegOp::LnReg(o, a) }),
-            SsaOp::NotReg(out, arg) => self.op_reg_fn(out, arg, |o: u8, a: u8| -> (r: RegOp) ensures r == RegOp::NotReg(o, a) { RegOp::NotReg(o, a) }),
-            SsaOp::CopyReg(out, arg) => self.op_reg_fn(out, arg, |o: u8, a: u8| -> (r: RegOp) ensures r == RegOp::CopyReg(o, a) { RegOp::CopyReg(o, a) }),
-            SsaOp::RandReg(out, arg) => self.op_reg_fn(out, arg, |o: u8, a: u8| -> (r: RegOp) ensures r == RegOp::RandReg(o, a) { RegOp::RandReg(o, a) }),
+            SsaOp::NegReg(out, arg) => {
+                let f = |o: u8, a: u8| -> (r: RegOp) ensures r == RegOp::NegReg(o, a) { RegOp::NegReg(o, a) };
+                self.op_reg_fn(out, arg, f);
+            }
+            SsaOp::AbsReg(out, arg) => {
+                let f = |o: u8, a: u8| -> (r: RegOp) ensures r == RegOp::AbsReg(o, a) { RegOp::AbsReg(o, a) };
+                self.op_reg_fn(out, arg, f);
+            }
+            SsaOp::RecipReg(out, arg) => {
+                let f = |o: u8, a: u8| -> (r: RegOp) ensures r == RegOp::RecipReg(o, a) { RegOp::RecipReg(o, a) };
+                self.op_reg_fn(out, arg, f);
+            }
+            SsaOp::SqrtReg(out, arg) => {
+                let f = |o: u8, a: u8| -> (r: RegOp) ensures r == RegOp::SqrtReg(o, a) { RegOp::SqrtReg(o, a) };
+                self.op_reg_fn(out, arg, f);
+            }
+            SsaOp::SquareReg(out, arg) => {
+                let f = |o: u8, a: u8| -> (r: RegOp) ensures r == RegOp::SquareReg(o, a) { RegOp::SquareReg(o, a) };
+                self.op_reg_fn(out, arg, f);
+            }
+            SsaOp::FloorReg(out, arg) => {
+                let f = |o: u8, a: u8| -> (r: RegOp) ensures r == RegOp::FloorReg(o, a) { RegOp::FloorReg(o, a) };
+                self.op_reg_fn(out, arg, f);
+            }
+            SsaOp::CeilReg(out, arg) => {
+                let f = |o: u8, a: u8| -> (r: RegOp) ensures r == RegOp::CeilReg(o, a) { RegOp::CeilReg(o, a) };
+                self.op_reg_fn(out, arg, f);
+            }
+            SsaOp::RoundReg(out, arg) => {
+                let f = |o: u8, a: u8| -> (r: RegOp) ensures r == RegOp::RoundReg(o, a) { RegOp::RoundReg(o, a) };
+                self.op_reg_fn(out, arg, f);
+            }
+            SsaOp::SinReg(out, arg) => {
+                let f = |o: u8, a: u8| -> (r: RegOp) ensures r == RegOp::SinReg(o, a) { RegOp::SinReg(o, a) };
+                self.op_reg_fn(out, arg, f);
+            }
+            SsaOp::CosReg(out, arg) => {
+                let f = |o: u8, a: u8| -> (r: RegOp) ensures r == RegOp::CosReg(o, a) { RegOp::CosReg(o, a) };
+                self.op_reg_fn(out, arg, f);
+            }
+            SsaOp::TanReg(out, arg) => {
+                let f = |o: u8, a: u8| -> (r: RegOp) ensures r == RegOp::TanReg(o, a) { RegOp::TanReg(o, a) };
+                self.op_reg_fn(out, arg, f);
+            }
+            SsaOp::AsinReg(out, arg) => {
+                let f = |o: u8, a: u8| -> (r: RegOp) ensures r == RegOp::AsinReg(o, a) { RegOp::AsinReg(o, a) };
+                self.op_reg_fn(out, arg, f);
+            }
+            SsaOp::AcosReg(out, arg) => {
+                let f = |o: u8, a: u8| -> (r: RegOp) ensures r == RegOp::AcosReg(o, a) { RegOp::AcosReg(o, a) };
+                self.op_reg_fn(out, arg, f);
+            }
+            SsaOp::AtanReg(out, arg) => {
+                let f = |o: u8, a: u8| -> (r: RegOp) ensures r == RegOp::AtanReg(o, a) { RegOp::AtanReg(o, a) };
+                self.op_reg_fn(out, arg, f);
+            }
+            SsaOp::ExpReg(out, arg) => {
+                let f = |o: u8, a: u8| -> (r: RegOp) ensures r == RegOp::ExpReg(o, a) { RegOp::ExpReg(o, a) };
+                self.op_reg_fn(out, arg, f);
+            }
+            SsaOp::LnReg(out, arg) => {
+                let f = |o: u8, a: u8| -> (r: RegOp) ensures r == RegOp::LnReg(o, a) { RegOp::LnReg(o, a) };
+                self.op_reg_fn(out, arg, f);
+            }
+            SsaOp::NotReg(out, arg) => {
+                let f = |o: u8, a: u8| -> (r: RegOp) ensures r == RegOp::NotReg(o, a) { RegOp::NotReg(o, a) };
+                self.op_reg_fn(out, arg, f);
+            }
+            SsaOp::CopyReg(out, arg) => {
+                let f = |o: u8, a: u8| -> (r: RegOp) ensures r == RegOp::CopyReg(o, a) { RegOp::CopyReg(o, a) };
+                self.op_reg_fn(out, arg, f);
+            }
+            SsaOp::RandReg(out, arg) => {
+                let f = |o: u8, a: u8| -> (r: RegOp) ensures r == RegOp::RandReg(o, a) { RegOp::RandReg(o, a) };
+                self.op_reg_fn(out, arg, f);
+            }
             _ => panic!(),
         }
     }
@@ -689,18 +746,54 @@ impl<const N: usize> RegisterAllocator<N> {
     }
     fn op_reg_reg(&mut self, op: SsaOp) {
         match op {
-            SsaOp::AddRegReg(out, lhs, rhs) => self.op_reg_reg_k(out, lhs, rhs, |o: u8, a: u8, b: u8| -> (r: RegOp) ensures r == RegOp::AddRegReg(o, a, b) { RegOp::AddRegReg(o, a, b) }),
-            SsaOp::SubRegReg(out, lhs, rhs) => self.op_reg_reg_k(out, lhs, rhs, |o: u8, a: u8, b: u8| -> (r: RegOp) ensures r == RegOp::SubRegReg(o, a, b) { RegOp::SubRegReg(o, a, b) }),
-            SsaOp::MulRegReg(out, lhs, rhs) => self.op_reg_reg_k(out, lhs, rhs, |o: u8, a: u8, b: u8| -> (r: RegOp) ensures r == RegOp::MulRegReg(o, a, b) { RegOp::MulRegReg(o, a, b) }),
-            SsaOp::DivRegReg(out, lhs, rhs) => self.op_reg_reg_k(out, lhs, rhs, |o: u8, a: u8, b: u8| -> (r: RegOp) ensures r == RegOp::DivRegReg(o, a, b) { RegOp::DivRegReg(o, a, b) }),
-            SsaOp::AtanRegReg(out, lhs, rhs) => self.op_reg_reg_k(out, lhs, rhs, |o: u8, a: u8, b: u8| -> (r: RegOp) ensures r == RegOp::AtanRegReg(o, a, b) { RegOp::AtanRegReg(o, a, b) }),
-            SsaOp::MinRegReg(out, lhs, rhs) => self.op_reg_reg_k(out, lhs, rhs, |o: u8, a: u8, b: u8| -> (r: RegOp) ensures r == RegOp::MinRegReg(o, a, b) { RegOp::MinRegReg(o, a, b) }),
-            SsaOp::MaxRegReg(out, lhs, rhs) => self.op_reg_reg_k(out, lhs, rhs, |o: u8, a: u8, b: u8| -> (r: RegOp) ensures r == RegOp::MaxRegReg(o, a, b) { RegOp::MaxRegReg(o, a, b) }),
-            SsaOp::CompareRegReg(out, lhs, rhs) => self.op_reg_reg_k(out, lhs, rhs, |o: u8, a: u8, b: u8| -> (r: RegOp) ensures r == RegOp::CompareRegReg(o, a, b) { RegOp::CompareRegReg(o, a, b) }),
-            SsaOp::ModRegReg(out, lhs, rhs) => self.op_reg_reg_k(out, lhs, rhs, |o: u8, a: u8, b: u8| -> (r: RegOp) ensures r == RegOp::ModRegReg(o, a, b) { RegOp::ModRegReg(o, a, b) }),
-            SsaOp::AndRegReg(out, lhs, rhs) => self.op_reg_reg_k(out, lhs, rhs, |o: u8, a: u8, b: u8| -> (r: RegOp) ensures r == RegOp::AndRegReg(o, a, b) { RegOp::AndRegReg(o, a, b) }),
-            SsaOp::OrRegReg(out, lhs, rhs) => self.op_reg_reg_k(out, lhs, rhs, |o: u8, a: u8, b: u8| -> (r: RegOp) ensures r == RegOp::OrRegReg(o, a, b) { RegOp::OrRegReg(o, a, b) }),
-            SsaOp::MixRegReg(out, lhs, rhs) => self.op_reg_reg_k(out, lhs, rhs, |o: u8, a: u8, b: u8| -> (r: RegOp) ensures r == RegOp::MixRegReg(o, a, b) { RegOp::MixRegReg(o, a, b) }),
+            SsaOp::AddRegReg(out, lhs, rhs) => {
+                let f = |o: u8, a: u8, b: u8| -> (r: RegOp) ensures r == RegOp::AddRegReg(o, a, b) { RegOp::AddRegReg(o, a, b) };
+                self.op_reg_reg_k(out, lhs, rhs, f);
+            }
+            SsaOp::SubRegReg(out, lhs, rhs) => {
+                let f = |o: u8, a: u8, b: u8| -> (r: RegOp) ensures r == RegOp::SubRegReg(o, a, b) { RegOp::SubRegReg(o, a, b) };
+                self.op_reg_reg_k(out, lhs, rhs, f);
+            }
+            SsaOp::MulRegReg(out, lhs, rhs) => {
+                let f = |o: u8, a: u8, b: u8| -> (r: RegOp) ensures r == RegOp::MulRegReg(o, a, b) { RegOp::MulRegReg(o, a, b) };
+                self.op_reg_reg_k(out, lhs, rhs, f);
+            }
+            SsaOp::DivRegReg(out, lhs, rhs) => {
+                let f = |o: u8, a: u8, b: u8| -> (r: RegOp) ensures r == RegOp::DivRegReg(o, a, b) { RegOp::DivRegReg(o, a, b) };
+                self.op_reg_reg_k(out, lhs, rhs, f);
+            }
+            SsaOp::AtanRegReg(out, lhs, rhs) => {
+                let f = |o: u8, a: u8, b: u8| -> (r: RegOp) ensures r == RegOp::AtanRegReg(o, a, b) { RegOp::AtanRegReg(o, a, b) };
+                self.op_reg_reg_k(out, lhs, rhs, f);
+            }
+            SsaOp::MinRegReg(out, lhs, rhs) => {
+                let f = |o: u8, a: u8, b: u8| -> (r: RegOp) ensures r == RegOp::MinRegReg(o, a, b) { RegOp::MinRegReg(o, a, b) };
+                self.op_reg_reg_k(out, lhs, rhs, f);
+            }
+            SsaOp::MaxRegReg(out, lhs, rhs) => {
+                let f = |o: u8, a: u8, b: u8| -> (r: RegOp) ensures r == RegOp::MaxRegReg(o, a, b) { RegOp::MaxRegReg(o, a, b) };
+                self.op_reg_reg_k(out, lhs, rhs, f);
+            }
+            SsaOp::CompareRegReg(out, lhs, rhs) => {
+                let f = |o: u8, a: u8, b: u8| -> (r: RegOp) ensures r == RegOp::CompareRegReg(o, a, b) { RegOp::CompareRegReg(o, a, b) };
+                self.op_reg_reg_k(out, lhs, rhs, f);
+            }
+            SsaOp::ModRegReg(out, lhs, rhs) => {
+                let f = |o: u8, a: u8, b: u8| -> (r: RegOp) ensures r == RegOp::ModRegReg(o, a, b) { RegOp::ModRegReg(o, a, b) };
+                self.op_reg_reg_k(out, lhs, rhs, f);
+            }
+            SsaOp::AndRegReg(out, lhs, rhs) => {
+                let f = |o: u8, a: u8, b: u8| -> (r: RegOp) ensures r == RegOp::AndRegReg(o, a, b) { RegOp::AndRegReg(o, a, b) };
+                self.op_reg_reg_k(out, lhs, rhs, f);
+            }
+            SsaOp::OrRegReg(out, lhs, rhs) => {
+                let f = |o: u8, a: u8, b: u8| -> (r: RegOp) ensures r == RegOp::OrRegReg(o, a, b) { RegOp::OrRegReg(o, a, b) };
+                self.op_reg_reg_k(out, lhs, rhs, f);
+            }
+            SsaOp::MixRegReg(out, lhs, rhs) => {
+                let f = |o: u8, a: u8, b: u8| -> (r: RegOp) ensures r == RegOp::MixRegReg(o, a, b) { RegOp::MixRegReg(o, a, b) };
+                self.op_reg_reg_k(out, lhs, rhs, f);
+            }
             _ => panic!(),
         }
     }
@@ -787,24 +880,78 @@ impl<const N: usize> RegisterAllocator<N> {
     }
     fn op_reg_imm(&mut self, op: SsaOp) {
         match op {
-            SsaOp::AddRegImm(out, arg, imm) => self.op_reg_fn(out, arg, |o: u8, a: u8| -> (r: RegOp) ensures r == RegOp::AddRegImm(o, a, imm) { RegOp::AddRegImm(o, a, imm) }),
-            SsaOp::SubRegImm(out, arg, imm) => self.op_reg_fn(out, arg, |o: u8, a: u8| -> (r: RegOp) ensures r == RegOp::SubRegImm(o, a, imm) { RegOp::SubRegImm(o, a, imm) }),
-            SsaOp::SubImmReg(out, arg, imm) => self.op_reg_fn(out, arg, |o: u8, a: u8| -> (r: RegOp) ensures r == RegOp::SubImmReg(o, a, imm) { RegOp::SubImmReg(o, a, imm) }),
-            SsaOp::MulRegImm(out, arg, imm) => self.op_reg_fn(out, arg, |o: u8, a: u8| -> (r: RegOp) ensures r == RegOp::MulRegImm(o, a, imm) { RegOp::MulRegImm(o, a, imm) }),
-            SsaOp::DivRegImm(out, arg, imm) => self.op_reg_fn(out, arg, |o: u8, a: u8| -> (r: RegOp) ensures r == RegOp::DivRegImm(o, a, imm) { RegOp::DivRegImm(o, a, imm) }),
-            SsaOp::DivImmReg(out, arg, imm) => self.op_reg_fn(out, arg, |o: u8, a: u8| -> (r: RegOp) ensures r == RegOp::DivImmReg(o, a, imm) { RegOp::DivImmReg(o, a, imm) }),
-            SsaOp::AtanRegImm(out, arg, imm) => self.op_reg_fn(out, arg, |o: u8, a: u8| -> (r: RegOp) ensures r == RegOp::AtanRegImm(o, a, imm) { RegOp::AtanRegImm(o, a, imm) }),
-            SsaOp::AtanImmReg(out, arg, imm) => self.op_reg_fn(out, arg, |o: u8, a: u8| -> (r: RegOp) ensures r == RegOp::AtanImmReg(o, a, imm) { RegOp::AtanImmReg(o, a, imm) }),
-            SsaOp::MinRegImm(out, arg, imm) => self.op_reg_fn(out, arg, |o: u8, a: u8| -> (r: RegOp) ensures r == RegOp::MinRegImm(o, a, imm) { RegOp::MinRegImm(o, a, imm) }),
-            SsaOp::MaxRegImm(out, arg, imm) => self.op_reg_fn(out, arg, |o: u8, a: u8| -> (r: RegOp) ensures r == RegOp::MaxRegImm(o, a, imm) { RegOp::MaxRegImm(o, a, imm) }),
-            SsaOp::CompareRegImm(out, arg, imm) => self.op_reg_fn(out, arg, |o: u8, a: u8| -> (r: RegOp) ensures r == RegOp::CompareRegImm(o, a, imm) { RegOp::CompareRegImm(o, a, imm) }),
-            SsaOp::CompareImmReg(out, arg, imm) => self.op_reg_fn(out, arg, |o: u8, a: u8| -> (r: RegOp) ensures r == RegOp::CompareImmReg(o, a, imm) { RegOp::CompareImmReg(o, a, imm) }),
-            SsaOp::ModRegImm(out, arg, imm) => self.op_reg_fn(out, arg, |o: u8, a: u8| -> (r: RegOp) ensures r == RegOp::ModRegImm(o, a, imm) { RegOp::ModRegImm(o, a, imm) }),
-            SsaOp::ModImmReg(out, arg, imm) => self.op_reg_fn(out, arg, |o: u8, a: u8| -> (r: RegOp) ensures r == RegOp::ModImmReg(o, a, imm) { RegOp::ModImmReg(o, a, imm) }),
-            SsaOp::MixRegImm(out, arg, imm) => self.op_reg_fn(out, arg, |o: u8, a: u8| -> (r: RegOp) ensures r == RegOp::MixRegImm(o, a, imm) { RegOp::MixRegImm(o, a, imm) }),
-            SsaOp::MixImmReg(out, arg, imm) => self.op_reg_fn(out, arg, |o: u8, a: u8| -> (r: RegOp) ensures r == RegOp::MixImmReg(o, a, imm) { RegOp::MixImmReg(o, a, imm) }),
-            SsaOp::AndRegImm(out, arg, imm) => self.op_reg_fn(out, arg, |o: u8, a: u8| -> (r: RegOp) ensures r == RegOp::AndRegImm(o, a, imm) { RegOp::AndRegImm(o, a, imm) }),
-            SsaOp::OrRegImm(out, arg, imm) => self.op_reg_fn(out, arg, |o: u8, a: u8| -> (r: RegOp) ensures r == RegOp::OrRegImm(o, a, imm) { RegOp::OrRegImm(o, a, imm) }),
+            SsaOp::AddRegImm(out, arg, imm) => {
+                let f = |o: u8, a: u8| -> (r: RegOp) ensures r == RegOp::AddRegImm(o, a, imm) { RegOp::AddRegImm(o, a, imm) };
+                self.op_reg_fn(out, arg, f);
+            }
+            SsaOp::SubRegImm(out, arg, imm) => {
+                let f = |o: u8, a: u8| -> (r: RegOp) ensures r == RegOp::SubRegImm(o, a, imm) { RegOp::SubRegImm(o, a, imm) };
+                self.op_reg_fn(out, arg, f);
+            }
+            SsaOp::SubImmReg(out, arg, imm) => {
+                let f = |o: u8, a: u8| -> (r: RegOp) ensures r == RegOp::SubImmReg(o, a, imm) { RegOp::SubImmReg(o, a, imm) };
+                self.op_reg_fn(out, arg, f);
+            }
+            SsaOp::MulRegImm(out, arg, imm) => {
+                let f = |o: u8, a: u8| -> (r: RegOp) ensures r == RegOp::MulRegImm(o, a, imm) { RegOp::MulRegImm(o, a, imm) };
+                self.op_reg_fn(out, arg, f);
+            }
+            SsaOp::DivRegImm(out, arg, imm) => {
+                let f = |o: u8, a: u8| -> (r: RegOp) ensures r == RegOp::DivRegImm(o, a, imm) { RegOp::DivRegImm(o, a, imm) };
+                self.op_reg_fn(out, arg, f);
+            }
+            SsaOp::DivImmReg(out, arg, imm) => {
+                let f = |o: u8, a: u8| -> (r: RegOp) ensures r == RegOp::DivImmReg(o, a, imm) { RegOp::DivImmReg(o, a, imm) };
+                self.op_reg_fn(out, arg, f);
+            }
+            SsaOp::AtanRegImm(out, arg, imm) => {
+                let f = |o: u8, a: u8| -> (r: RegOp) ensures r == RegOp::AtanRegImm(o, a, imm) { RegOp::AtanRegImm(o, a, imm) };
+                self.op_reg_fn(out, arg, f);
+            }
+            SsaOp::AtanImmReg(out, arg, imm) => {
+                let f = |o: u8, a: u8| -> (r: RegOp) ensures r == RegOp::AtanImmReg(o, a, imm) { RegOp::AtanImmReg(o, a, imm) };
+                self.op_reg_fn(out, arg, f);
+            }
+            SsaOp::MinRegImm(out, arg, imm) => {
+                let f = |o: u8, a: u8| -> (r: RegOp) ensures r == RegOp::MinRegImm(o, a, imm) { RegOp::MinRegImm(o, a, imm) };
+                self.op_reg_fn(out, arg, f);
+            }
+            SsaOp::MaxRegImm(out, arg, imm) => {
+                let f = |o: u8, a: u8| -> (r: RegOp) ensures r == RegOp::MaxRegImm(o, a, imm) { RegOp::MaxRegImm(o, a, imm) };
+                self.op_reg_fn(out, arg, f);
+            }
+            SsaOp::CompareRegImm(out, arg, imm) => {
+                let f = |o: u8, a: u8| -> (r: RegOp) ensures r == RegOp::CompareRegImm(o, a, imm) { RegOp::CompareRegImm(o, a, imm) };
+                self.op_reg_fn(out, arg, f);
+            }
+            SsaOp::CompareImmReg(out, arg, imm) => {
+                let f = |o: u8, a: u8| -> (r: RegOp) ensures r == RegOp::CompareImmReg(o, a, imm) { RegOp::CompareImmReg(o, a, imm) };
+                self.op_reg_fn(out, arg, f);
+            }
+            SsaOp::ModRegImm(out, arg, imm) => {
+                let f = |o: u8, a: u8| -> (r: RegOp) ensures r == RegOp::ModRegImm(o, a, imm) { RegOp::ModRegImm(o, a, imm) };
+                self.op_reg_fn(out, arg, f);
+            }
+            SsaOp::ModImmReg(out, arg, imm) => {
+                let f = |o: u8, a: u8| -> (r: RegOp) ensures r == RegOp::ModImmReg(o, a, imm) { RegOp::ModImmReg(o, a, imm) };
+                self.op_reg_fn(out, arg, f);
+            }
+            SsaOp::MixRegImm(out, arg, imm) => {
+                let f = |o: u8, a: u8| -> (r: RegOp) ensures r == RegOp::MixRegImm(o, a, imm) { RegOp::MixRegImm(o, a, imm) };
+                self.op_reg_fn(out, arg, f);
+            }
+            SsaOp::MixImmReg(out, arg, imm) => {
+                let f = |o: u8, a: u8| -> (r: RegOp) ensures r == RegOp::MixImmReg(o, a, imm) { RegOp::MixImmReg(o, a, imm) };
+                self.op_reg_fn(out, arg, f);
+            }
+            SsaOp::AndRegImm(out, arg, imm) => {
+                let f = |o: u8, a: u8| -> (r: RegOp) ensures r == RegOp::AndRegImm(o, a, imm) { RegOp::AndRegImm(o, a, imm) };
+                self.op_reg_fn(out, arg, f);
+            }
+            SsaOp::OrRegImm(out, arg, imm) => {
+                let f = |o: u8, a: u8| -> (r: RegOp) ensures r == RegOp::OrRegImm(o, a, imm) { RegOp::OrRegImm(o, a, imm) };
+                self.op_reg_fn(out, arg, f);
+            }
             _ => panic!(),
         }
     }
@@ -843,6 +990,30 @@ impl<const N: usize> RegisterAllocator<N> {
     }
 }
 
+
+struct SsaTape {
+    tape: Vec<SsaOp>,
+    choice_count: usize,
+    output_count: usize,
+}
+impl SsaTape {
+    fn len(&self) -> usize {
+        self.tape.len()
+    }
+}
+impl RegTape {
+    fn new<const N: usize>(ssa: &SsaTape) -> Self {
+        let mut alloc = RegisterAllocator::<N>::new(ssa.len());
+        // R-iter: `for &op in ssa.iter() { alloc.op(op) }`
+        let mut k_: usize = 0;
+        while k_ < ssa.tape.len() {
+            let op = ssa.tape[k_];
+            alloc.op(op);
+            k_ += 1;
+        }
+        alloc.finalize()
+    }
+}
 
 } // verus!
 fn main() {}
